@@ -9,6 +9,7 @@ from ..gen.cases import gen_case, boundary_cases
 from ..ref import schema as RS, binary as RB, conform as RC
 from ..ref.schema import deref
 from . import c01
+from .. import known
 
 PID = "C02"
 LEVEL = "exploration"
@@ -160,7 +161,9 @@ def run_shard(spec):
         sh.feat(feats)
         if any(f.startswith(("boundary", "coll_", "union_")) for f in feats):
             sh.count("boundary_cases")
-        sh.run_case(one_case, sh, fa, case, parsed)
+        filled = known.neutralise_bytes_defaults(case) if RC.has_bytes_default(case["node"]) else case
+        sh.run_case(sh.with_finding, c01.KNOWN_BYTES_DEFAULT, RC.has_bytes_default(case["node"]),
+                    lambda s_: one_case(s_, fa, case, parsed), lambda s_: one_case(s_, fa, filled, parsed))
         if i % 700 == 1:
             sh.sample({"schema": case["schema"], "datum": printable(case["datum"], 300), "parsed": parsed})
     return sh.result()
